@@ -330,7 +330,7 @@ def _api_pipeline(arch, line, fixed, tools):
     fe.full_analysis_dict(kernel, dg, lcd_warning=dg.timed_out)
 
 
-def _pipeline_crashes(arch, lines, workdir, tools, chunk=40):
+def _pipeline_crashes(arch, lines, workdir, tools, chunk=16):
     """Run the CLI analysis (default and --fixed) on chunks of lines.  When a chunk raises, every line
     of it goes through the same stages on its own (models loaded once); the lines that raise there
     are the witnesses, otherwise the chunk as a whole is."""
@@ -471,7 +471,33 @@ def r3_shipped(run, tier):
     # the real code: costing / loading / analysis path in forked workers, --db-check through the CLI
     env.warm_models([])  # ISA databases
     ctx = multiprocessing.get_context("fork")
-    with ctx.Pool(min(16, len(jobs))) as pool:
+    import concurrent.futures
+
+    class _NonDaemonicPool(object):
+        """the analyses may start worker processes of their own (multi-process LCD search): pool workers must not be daemonic"""
+
+        def __init__(self, n):
+            self.ex = concurrent.futures.ProcessPoolExecutor(max_workers=n, mp_context=ctx)
+
+        def __enter__(self):
+            return self
+
+        def __exit__(self, *a):
+            self.ex.shutdown(wait=True)
+            return False
+
+        def map_async(self, fn, items):
+            futs = [self.ex.submit(fn, it) for it in items]
+
+            class R(object):
+                def get(s):
+                    return [f.result() for f in futs]
+            return R()
+
+        def map(self, fn, items):
+            return self.map_async(fn, list(items)).get()
+
+    with _NonDaemonicPool(min(16, len(jobs))) as pool:
         db_async = pool.map_async(_dbcheck, [a for a in full_archs])
         tf = os.path.join(env.REPO, "tests", "test_files")
         after_jobs = [("zen1", os.path.join(tf, "ibench_import_x86.dat"), "ibench", os.path.join(tf, "kernel_x86.s")),
